@@ -20,16 +20,16 @@ SITES = [
     dict(id="C10.gh", group="C10_kern", kind="guards", file=_C, func="check_huber_param", params={"huber_param": "num"},
          name="gen_guard_check_huber_param"),
     # ---- threshold_weighted_impl: rows of Table B1
-    dict(id="C10.g_rect", group="C10_kern", kind="kernel", file=_T, func="_g_j_rect",
+    dict(id="C10.g_rect", group="C10_kern", kind="kernel", file=_T, func="_g_j_rect", identity_calls=["_align_endpoints"],
          params={"a": "num", "b": "num", "x": "num"}, outputs="return", name="gen_g_rect"),
-    dict(id="C10.phi_rect", group="C10_kern", kind="kernel", file=_T, func="_phi_j_rect",
+    dict(id="C10.phi_rect", group="C10_kern", kind="kernel", file=_T, func="_phi_j_rect", identity_calls=["_align_endpoints"],
          params={"a": "num", "b": "num", "x": "num"}, outputs="return", name="gen_phi_rect"),
     dict(id="C10.phip_rect", group="C10_kern", kind="kernel", file=_T, func="_phi_j_prime_rect",
          params={"a": "num", "b": "num", "x": "num"}, outputs="return",
          funcs={"_g_j_rect": ("gen_g_rect", "num")}, name="gen_phi_prime_rect"),
-    dict(id="C10.g_trap", group="C10_kern", kind="kernel", file=_T, func="_g_j_trap",
+    dict(id="C10.g_trap", group="C10_kern", kind="kernel", file=_T, func="_g_j_trap", identity_calls=["_align_endpoints"],
          params={"a": "num", "b": "num", "c": "num", "d": "num", "x": "num"}, outputs="return", name="gen_g_trap"),
-    dict(id="C10.phi_trap", group="C10_kern", kind="kernel", file=_T, func="_phi_j_trap",
+    dict(id="C10.phi_trap", group="C10_kern", kind="kernel", file=_T, func="_phi_j_trap", identity_calls=["_align_endpoints"],
          params={"a": "num", "b": "num", "c": "num", "d": "num", "x": "num"}, outputs="return", name="gen_phi_trap"),
     dict(id="C10.phip_trap", group="C10_kern", kind="kernel", file=_T, func="_phi_j_prime_trap",
          params={"a": "num", "b": "num", "c": "num", "d": "num", "x": "num"}, outputs="return",
